@@ -39,12 +39,15 @@ structure Tags where
   selectedBeforeEditing : Bool := false
   phony : Bool := false
   placeholder : Bool := false
+  /-- set by PunctSegmentor (punctuator.cc) -/
+  punct : Bool := false
   deriving Repr, DecidableEq, Inhabited
 
 def Tags.union (a b : Tags) : Tags :=
   { abc := a.abc || b.abc, raw := a.raw || b.raw, partial_ := a.partial_ || b.partial_,
     paging := a.paging || b.paging, selectedBeforeEditing := a.selectedBeforeEditing || b.selectedBeforeEditing,
-    phony := a.phony || b.phony, placeholder := a.placeholder || b.placeholder }
+    phony := a.phony || b.phony, placeholder := a.placeholder || b.placeholder,
+    punct := a.punct || b.punct }
 
 /-- Segment.  `menu = none` is a null `an<Menu>`; `some l` is a menu whose full (merged, filtered)
 candidate list is `l` — the lazily filled cache of the real Menu is the subject of C04, whose
@@ -93,6 +96,8 @@ structure Ctx where
   /-- Navigator::input_ / spans_ (vertices, ascending) -/
   navInput : Bytes := []
   navSpans : List Nat := []
+  /-- Punctuator::oddness_ : the paired-punctuation definitions (shape, key) whose oddness is 1 -/
+  punctOdd : List (Bool × UInt8) := []
   deriving Repr, DecidableEq, Inhabited
 
 def Ctx.getOption (c : Ctx) (name : String) : Bool :=
@@ -102,5 +107,31 @@ def Ctx.getOption (c : Ctx) (name : String) : Bool :=
 
 def Ctx.setOptionRaw (c : Ctx) (name : String) (v : Bool) : Ctx :=
   { c with options := (name, v) :: c.options.filter (·.1 != name) }
+
+/-- one entry of `punctuator/half_shape` or `punctuator/full_shape` (punctuator.cc): a scalar (`ConfigValue`),
+a list of scalars (`ConfigList`), `{commit: t}` or `{pair: [a, b]}` (`ConfigMap`; `commit` is looked at first) -/
+inductive PunctDef where
+  | unique (t : Bytes)
+  | alt (ts : List Bytes)
+  | commit (t : Bytes)
+  | pair (a b : Bytes)
+  deriving Repr, DecidableEq, Inhabited
+
+/-- the `punctuator:` section of a schema.  `digit_separators` is empty in every modelled schema (the
+digit-separator path reads the commit history, which is not part of the model; the driver refuses
+schemas that leave it on). -/
+structure PunctCfg where
+  half : List (UInt8 × PunctDef) := []
+  full : List (UInt8 × PunctDef) := []
+  useSpace : Bool := false
+  deriving Repr, DecidableEq, Inhabited
+
+def punctFind (m : List (UInt8 × PunctDef)) (b : UInt8) : Option PunctDef :=
+  match m.find? (·.1 == b) with
+  | some e => some e.2
+  | none => none
+
+/-- `PunctConfig::LoadConfig` + `GetPunctDefinition`: the mapping of the current shape -/
+def PunctCfg.mapping (p : PunctCfg) (fullShape : Bool) : List (UInt8 × PunctDef) := if fullShape then p.full else p.half
 
 end RimeModel.Session
